@@ -865,3 +865,95 @@ def register_sort_bo_no(reg):
                                        "(BO(result[i]) == BO(result[j]) and NO(result[i]) <= NO(result[j]))))",
         },
     ))
+
+
+# ---- read_graph, first loop (C07 / C17): every S line becomes a node, L lines are collected in file order, every other record is ignored -------
+def register_read_graph_s_lines(reg):
+    M = {"isS": "lambda t: str_head(opened_file[t]) == 'S'", "isL": "lambda t: str_head(opened_file[t]) == 'L'",
+         "F": "lambda t: fields_of(rstrip_crlf(opened_file[t]))", "sid": "lambda t: fields_of(rstrip_crlf(opened_file[t]))[1]"}
+    inv = {
+        "s-line-ids-are-nodes": "forall(lambda t: implies(0 <= t < it1 and isS(t), sid(t) in self.nodes))",
+        "nodes-come-from-s-lines": "forall(STR, lambda a: implies(a in self.nodes and a not in old(self).nodes, 0 <= src[a] < it1 and isS(src[a]) and sid(src[a]) == a))",
+        "old-nodes-kept": "forall(STR, lambda a: implies(a in old(self).nodes, a in self.nodes and self.nodes[a].start == old(self).nodes[a].start and "
+                          "self.nodes[a].end == old(self).nodes[a].end))",
+        "new-nodes-have-no-links": "forall([STR, STR, INT, INT], lambda a, b, s, ov: implies(a in self.nodes and a not in old(self).nodes, "
+                                   "(b, s, ov) not in self.nodes[a].start and (b, s, ov) not in self.nodes[a].end))",
+        "l-lines-collected-in-order": "len(edges) == CL[it1] and forall(lambda t: implies(0 <= t < it1 and isL(t), edges[CL[t]] == opened_file[t]))",
+    }
+    inv.update(_wfd("self", ""))
+    reg.add(Contract(
+        file=GFA, func="GFA.read_graph", variant="#s-lines", fragment=("for line in opened_file:", 1),
+        params=dict(self=GFAT, opened_file=ListT(STR), low_memory=BOOL, edges=ListT(STR)), modifies=["self", "edges"], returns=NONE,
+        types=dict(STR=STR, INT=INT), ufuns={"fields_of": ([STR], LINE), "rstrip_crlf": ([STR], STR), "str_head": ([STR], STR), "split_colon_2": ([STR], LINE)},
+        ghost=dict(src=MapT(STR, INT), CL=IMAP, was=BOOL), spec_funcs=M, raises={"ValueError": "*", "AssertionError": "*"},
+        requires=["len(edges) == 0"] + wf("self") + [
+            "CL[0] == 0 and forall(lambda t: implies(0 <= t < len(opened_file), CL[t + 1] == CL[t] + ite(isL(t), 1, 0)))",
+            "forall(lambda t, u: implies(0 <= t < u <= len(opened_file), CL[t] + ite(isL(t), 1, 0) <= CL[u])) and forall(lambda t: implies(0 <= t <= len(opened_file), CL[t] >= 0))"],
+        ghost_at={"before:self.add_node(line[1]": "was = line[1] in self.nodes", "after:self.add_node(line[1]": "src[line[1]] = ite(was, src[line[1]], it1 - 1)"},
+        loops={1: Loop(index="it1", fingerprint="for line in opened_file", invariant=inv)},
+        ensures=dict(
+            [("every-s-line-id-is-a-node", "forall(lambda t: implies(0 <= t < len(opened_file) and isS(t), sid(t) in self.nodes))"),
+             ("every-new-node-comes-from-an-s-line", "forall(STR, lambda a: implies(a in self.nodes and a not in old(self).nodes, 0 <= src[a] < len(opened_file) and isS(src[a]) and sid(src[a]) == a))"),
+             ("nodes-already-there-keep-their-links", inv["old-nodes-kept"]),
+             ("new-nodes-have-no-links-yet", inv["new-nodes-have-no-links"]),
+             ("l-lines-collected-in-file-order-nothing-else", "len(edges) == CL[len(opened_file)] and forall(lambda t: implies(0 <= t < len(opened_file) and isL(t), edges[CL[t]] == opened_file[t]))")]
+            + list(_wfd("self", "").items())),
+        notes="records that are neither S nor L lines (header, P, W, comments, blank lines) change nothing; a repeated S id keeps the first node (add_node)",
+    ))
+
+
+# ---- read_graph, second loop: every L line whose two segments exist becomes a link stored at both ends (sides from E_DIR, overlap from "<n>M"),
+# its tags (or the [0] sentinel) under the key of the declaring end; nothing else is added; the adjacency and link-tag invariants hold afterwards ----
+E5 = TupleT(STR, INT, STR, INT, INT)
+
+
+def register_read_graph_l_lines(reg):
+    M = {
+        "G": "lambda t: fields_of(rstrip_crlf(edges[t]))",
+        "n1": "lambda t: fields_of(rstrip_crlf(edges[t]))[1]", "o1": "lambda t: fields_of(rstrip_crlf(edges[t]))[2]",
+        "n2": "lambda t: fields_of(rstrip_crlf(edges[t]))[3]", "o2": "lambda t: fields_of(rstrip_crlf(edges[t]))[4]",
+        "ovl": "lambda t: int(str_drop_last(fields_of(rstrip_crlf(edges[t]))[5]))",
+        "s1": "lambda t: ite(fields_of(rstrip_crlf(edges[t]))[2] == '+', 1, 0)", "s2": "lambda t: ite(fields_of(rstrip_crlf(edges[t]))[4] == '+', 0, 1)",
+        "present": "lambda t: fields_of(rstrip_crlf(edges[t]))[1] in self.nodes and fields_of(rstrip_crlf(edges[t]))[3] in self.nodes",
+        # membership in the adjacency set of side sa of node a (an ite over the two membership tests, not over the two sets)
+        "inadj": "lambda g, a, sa, b, sb, ov: ite(sa == 1, (b, sb, ov) in g.nodes[a].end, (b, sb, ov) in g.nodes[a].start)",
+    }
+    inv = {
+        "same-node-set": "forall(STR, lambda a: (a in self.nodes) == (a in old(self).nodes))",
+        "links-only-grow": "forall([STR, INT, STR, INT, INT], lambda a, sa, b, sb, ov: implies(a in self.nodes and (sa == 0 or sa == 1) and inadj(old(self), a, sa, b, sb, ov), "
+                           "inadj(self, a, sa, b, sb, ov)))",
+        "every-l-line-so-far-is-a-link-at-both-ends": "forall(lambda t: implies(0 <= t < it1 and present(t), inadj(self, n1(t), s1(t), n2(t), s2(t), ovl(t)) and "
+                                                      "inadj(self, n2(t), s2(t), n1(t), s1(t), ovl(t))))",
+        "every-new-link-comes-from-an-l-line": "forall([STR, INT, STR, INT, INT], lambda a, sa, b, sb, ov: implies(a in self.nodes and (sa == 0 or sa == 1) and "
+                                               "inadj(self, a, sa, b, sb, ov) and not inadj(old(self), a, sa, b, sb, ov), "
+                                               "0 <= src[(a, sa, b, sb, ov)] < it1 and present(src[(a, sa, b, sb, ov)]) and ovl(src[(a, sa, b, sb, ov)]) == ov and "
+                                               "((n1(src[(a, sa, b, sb, ov)]) == a and s1(src[(a, sa, b, sb, ov)]) == sa and n2(src[(a, sa, b, sb, ov)]) == b and s2(src[(a, sa, b, sb, ov)]) == sb) or "
+                                               "(n2(src[(a, sa, b, sb, ov)]) == a and s2(src[(a, sa, b, sb, ov)]) == sa and n1(src[(a, sa, b, sb, ov)]) == b and s1(src[(a, sa, b, sb, ov)]) == sb))))",
+        "link-tags-only-for-existing-links": TAGS_INV.format(g="self"),
+    }
+    inv.update(_wfd("self", ""))
+    reg.add(Contract(
+        file=GFA, func="GFA.read_graph", variant="#l-lines", fragment=("for e in edges:", 1),
+        params=dict(self=GFAT, edges=ListT(STR)), modifies=["self"], returns=NONE, module_env={"E_DIR": E_DIR_value},
+        types=dict(STR=STR, INT=INT, EKEY=EdgeKey),
+        ufuns={"fields_of": ([STR], LINE), "rstrip_crlf": ([STR], STR), "str_drop_last": ([STR], STR)},
+        ghost=dict(src=MapT(E5, INT), tagov=MapT(EdgeKey, INT)), locals=dict(e_tags=ListT(STR)), spec_funcs=M,
+        raises={"AssertionError": "*"},
+        requires=wf("self") + [TAGS_INV.format(g="self"),
+                               # valid L lines: six columns at least, orientations are + or -
+                               "forall(lambda t: implies(0 <= t < len(edges), len(G(t)) >= 6 and (o1(t) == '+' or o1(t) == '-') and (o2(t) == '+' or o2(t) == '-')))"],
+        ghost_at={"after:self.add_edge(": "src[(n1(it1 - 1), s1(it1 - 1), n2(it1 - 1), s2(it1 - 1), ovl(it1 - 1))] = it1 - 1\n"
+                                                     "src[(n2(it1 - 1), s2(it1 - 1), n1(it1 - 1), s1(it1 - 1), ovl(it1 - 1))] = it1 - 1"},
+        call_ghost={"GFA.add_edge": {"tagov": "tagov"}},
+        loops={1: Loop(index="it1", fingerprint="for e in edges", invariant=inv, modifies=["tagov"],
+                       pres_from={"links-only-grow": ["loop1:links-only-grow", "loop1:same-node-set", "GFA.add_edge:same-node-set",
+                                                      "GFA.add_edge:exactly-this-link-added-start", "GFA.add_edge:exactly-this-link-added-end", "!partial"]})},
+        ensures=dict(list(inv.items())[:1] + [
+            ("every-l-line-between-existing-segments-is-a-link-at-both-ends", "forall(lambda t: implies(0 <= t < len(edges) and present(t), "
+             "inadj(self, n1(t), s1(t), n2(t), s2(t), ovl(t)) and inadj(self, n2(t), s2(t), n1(t), s1(t), ovl(t))))"),
+            ("links-already-there-are-kept", inv["links-only-grow"]),
+            ("every-new-link-comes-from-an-l-line", inv["every-new-link-comes-from-an-l-line"].replace("< it1", "< len(edges)")),
+            ("link-tags-only-for-existing-links", TAGS_INV.format(g="self"))] + list(_wfd("self", "").items())),
+        notes="a malformed overlap (not <int>M) raises ValueError in the real code: int() is modelled as total, so that exit is not covered; "
+              "L lines naming a missing segment are skipped",
+    ))
